@@ -60,25 +60,33 @@ def parse_expr(e):
 
 
 # ------------------------------------------------------------ point identification
+_NV = np.array(list(itertools.product((0, -1, 1), repeat=3)), float)
+_pinv_cache = {}
+
+
 def contains(info, translations, p, tol=1e-5):
-    """Is the point p (fractional, standard setting) a point of the tabulated position?"""
+    """Is the point p (fractional, standard setting) a point of the tabulated position?
+    For every representative W.M_k + C_k (+ centring translation, + integer offsets in {-1,0,1}^3)
+    the parameters are obtained by least squares and the residual is tested."""
     Ms, Cs = info["matrices"], info["constants"]
-    trs = [np.zeros(3)] + [np.asarray(t, float) for t in translations]
-    for M, C in zip(Ms, Cs):
-        M = np.asarray(M, float)
-        free = [i for i in range(3) if np.abs(M[i]).sum() > 0]
-        for t in trs:
-            r = (np.asarray(p) - C - t) % 1.0
-            for nv in itertools.product((0, -1, 1), repeat=3):
-                rr = r + np.array(nv)
-                if free:
-                    A = M[free].T  # 3 x nfree :  A @ w = rr
-                    w, *_ = np.linalg.lstsq(A, rr, rcond=None)
-                    resid = A @ w - rr
-                else:
-                    resid = -rr
-                if np.abs(resid).max() < tol:
-                    return True
+    trs = np.vstack([np.zeros((1, 3))] + [np.asarray(t, float).reshape(1, 3) for t in translations])
+    p = np.asarray(p, float)
+    for k in range(len(Ms)):
+        M = np.asarray(Ms[k], float)
+        key = (id(info), k)
+        if key not in _pinv_cache:
+            free = [i for i in range(3) if np.abs(M[i]).sum() > 0]
+            A = M[free].T if free else None  # 3 x nfree :  A @ w = rr
+            _pinv_cache[key] = (A, np.linalg.pinv(A) if free else None)
+        A, Ap = _pinv_cache[key]
+        r = (p[None, :] - np.asarray(Cs[k], float)[None, :] - trs) % 1.0  # n_t x 3
+        rr = (r[:, None, :] + _NV[None, :, :]).reshape(-1, 3)
+        if A is None:
+            resid = rr
+        else:
+            resid = rr @ Ap.T @ A.T - rr
+        if (np.abs(resid).max(1) < tol).any():
+            return True
     return False
 
 
